@@ -1,5 +1,7 @@
 import MW.Staking.Facts
 import MW.Chain.World
+import MW.Chain.Dispatch
+import MW.Staking.Effects
 /-!
 # C10 — Circuit breaker halts all value-moving user operations
 -/
@@ -116,6 +118,52 @@ theorem halted_hook_without_effect (w : World) (channel nativeSender : String) (
     · have h := halted_tx_without_effect { w with bal := w.bal.add acct coin.denom coin.amount } acct [coin] m f (some 0) hm hs
       simp only [step] at h
       simp only [h.2, Bool.false_eq_true, ↓reduceIte, and_self]
+
+/-- **halting and resuming, on the chain model.**  A committed `CircuitBreaker` (sent without funds)
+changes nothing in the whole world but the halted flag; a committed `ResumeContract` changes nothing
+but the flag and the three totals, which become exactly the values supplied — every bank balance, the
+LST supply, the packet list and the rest of the contract store are as before. -/
+theorem breaker_tx_exact (w : World) (sender : String) (f : Faults) (txi : Option Nat)
+    (hc : (step w (.exec sender [] .circuitBreaker f txi)).committed = true) :
+    (step w (.exec sender [] .circuitBreaker f txi)).w
+      = { w with c := { w.c with config := { w.c.config with stopped := true } } } := by
+  simp only [step, runExec] at hc ⊢
+  cases hcore : runExecCore w sender [] .circuitBreaker f txi with
+  | mk o calls =>
+    cases o with
+    | none => simp [hcore] at hc
+    | some w' =>
+      simp only [hcore]
+      obtain ⟨bal1, c', msgs, d, hbal, hx, hd, hw'⟩ := runExecCore_some hcore
+      simp only [List.isEmpty_nil, ↓reduceIte, Option.some.injEq] at hbal
+      subst hbal hw'
+      simp only [execute] at hx
+      obtain ⟨hs', hout, _⟩ := breaker_frame _ _ _ _ hx
+      subst hs' hout
+      have := dispatchAll_nil_ok hd; subst this
+      rfl
+
+theorem resume_tx_exact (w : World) (sender : String) (n l r : Nat) (f : Faults) (txi : Option Nat)
+    (hc : (step w (.exec sender [] (.resumeContract n l r) f txi)).committed = true) :
+    (step w (.exec sender [] (.resumeContract n l r) f txi)).w
+      = { w with c := { w.c with config := { w.c.config with stopped := false },
+                                 st := { w.c.st with totalNative := n, totalLst := l, totalReward := r } } } := by
+  simp only [step, runExec] at hc ⊢
+  cases hcore : runExecCore w sender [] (.resumeContract n l r) f txi with
+  | mk o calls =>
+    cases o with
+    | none => simp [hcore] at hc
+    | some w' =>
+      simp only [hcore]
+      obtain ⟨bal1, c', msgs, d, hbal, hx, hd, hw'⟩ := runExecCore_some hcore
+      simp only [List.isEmpty_nil, ↓reduceIte, Option.some.injEq] at hbal
+      subst hbal hw'
+      simp only [execute] at hx
+      obtain ⟨_, hs', horc⟩ := resume_exact _ _ _ _ _ _ _ _ hx
+      subst hs'
+      have := dispatchAll_oracle (oracle_msgs_shape horc) hd
+      subst this
+      rfl
 
 /-- non-vacuity: a halted state exists in which a stake with otherwise valid inputs is refused -/
 example : ∃ e, execute { (default : CState) with config := { (default : Config) with stopped := true } }
